@@ -208,8 +208,67 @@ def gen_grid(rng, cls, nmin=1, nmax=5, family=None, n=None, opts=None):
     return faces, {'cls': cls, 'n': list(n), 'family': fams, 'r0zero': bool(kinds[0] == 'rad' and faces[0][0] == 0.0)}
 
 
-def build_mesh(pf, cls, faces):
+_DECOY_KEEP = []
+DECOY_STATS = {'built': 0, 'failed': 0}
+
+
+def warm_decoy(pf, cls, faces):
+    """Before the grid of a case is built, a SIBLING grid lives through a small model run in the same process: same class, same cell
+    counts, same first and last face on every axis - but other interior face positions - with variables, boundary conditions, every
+    term builder and a solve. A correct library keeps nothing between objects, so this changes nothing; anything memoised per
+    class / shape / extent / id() (metric factors, index arrays, work buffers, factorisations) is now warm with the WRONG grid's data
+    when the case starts. Deterministic (seeded from the face positions), applied to every second grid, never part of a verdict."""
+    import os
+    import zlib
+    if os.environ.get('PVMON_NO_DECOY'):
+        return
+    try:
+        fl = [np.asarray(f, dtype=float) for f in faces]
+        key = zlib.crc32(b''.join(f.tobytes() for f in fl))
+        if key % 2 == 0 or not any(len(f) > 2 for f in fl):
+            return
+        rng = np.random.default_rng(key)
+        dfaces = []
+        for f in fl:
+            if len(f) > 2:
+                w = rng.uniform(0.3, 1.7, len(f) - 1)
+                t = np.cumsum(w) / w.sum()
+                f = np.concatenate([[f[0]], f[0] + (f[-1] - f[0]) * t[:-1], [f[-1]]])
+            dfaces.append(f.copy())
+        with np.errstate(all='ignore'):
+            m = getattr(pf, cls)(*dfaces)
+            dims = tuple(int(x) for x in m.dims)
+            nd = len(dims)
+            BC = pf.BoundaryConditions(m)
+            for k in range(nd):
+                for side in SIDES[k]:
+                    fc = getattr(BC, side)
+                    fc.a[:] = 1.0
+                    fc.b[:] = (-1.0 if side == SIDES[k][0] else 1.0) * rng.uniform(0.5, 2.0)
+                    fc.c[:] = rng.normal(0, 1, np.shape(fc.c))
+            psi = pf.CellVariable(m, rng.normal(0, 1, dims), BC)
+            pos = pf.CellVariable(m, np.exp(rng.normal(0, 1, dims)))
+            D = pf.FaceVariable(m, 1.3)
+            u = pf.FaceVariable(m, 0.7)
+            terms = [pf.transientTerm(psi, 0.1, 1.0), -pf.diffusionTerm(D), pf.convectionUpwindTerm(u), pf.linearSourceTerm(pos), pf.constantSourceTerm(pos)]
+            pf.convectionTerm(u)
+            pf.convectionTVDupwindRHSTerm(u, psi, pf.fluxLimiter('SUPERBEE'))
+            pf.divergenceTerm(D * pf.gradientTerm(psi))
+            pf.divergenceTerm(u * pf.upwindMean(psi, u))
+            pf.linearMean(psi), pf.arithmeticMean(pos), pf.harmonicMean(pos), pf.geometricMean(pos)
+            np.sum(m.cellvolume), psi.domainIntegral()
+            pf.solvePDE(psi, terms)
+            pf.solveExplicitPDE(psi, 1e-6, pf.divergenceTerm(D * pf.gradientTerm(psi)))
+        _DECOY_KEEP[:] = [(m, psi, pos, D, u, terms)]       # the previous sibling dies here (its id() may be reused), this one stays alive
+        DECOY_STATS['built'] += 1
+    except Exception:
+        DECOY_STATS['failed'] += 1
+
+
+def build_mesh(pf, cls, faces, decoy=True):
     """integer-typed face arrays are handed over as they are (see int_axis_faces), everything else as float arrays"""
+    if decoy:
+        warm_decoy(pf, cls, faces)
     return getattr(pf, cls)(*[np.array(f) if np.asarray(f).dtype.kind in 'iu' else np.array(f, dtype=float) for f in faces])
 
 
